@@ -304,8 +304,14 @@ where
         while self.state != State::Finished {
             if self.state == State::Incomplete {
                 // resume incomplete search after previous read_record_set(), or
-                if !try_opt!(self.resume_incomplete_search(is_new)) {
-                    return None;
+                match self.resume_incomplete_search(is_new) {
+                    Ok(true) => {}
+                    Ok(false) => return None,
+                    Err(e) => {
+                        // the offsets found so far do not refer to the data in `rset`
+                        rset.npos = 0;
+                        return Some(Err(e));
+                    }
                 }
                 // reset state to Positioned
                 if self.state != State::Finished {
